@@ -286,7 +286,9 @@ def smdp_cases(draw, tier="quick"):
     return {"mdp": spec, "options": opts, "n_sims": draw(st.integers(1, 30)), "n_sims_later": draw(st.integers(1, 30)),
             "distinct_names": draw(st.booleans()),
             "seed": draw(st.one_of(st.sampled_from([0, 1]), st.integers(0, 10 ** 6))),
-            "include_mdp_actions": draw(st.booleans())}
+            "include_mdp_actions": draw(st.booleans()),
+            # a planning option that happens to be called like one of the primitive actions ("left", 0, ...)
+            "subgoal_option_named_like_action": draw(st.one_of(st.none(), st.none(), st.integers(0, spec["m"] - 1)))}
 
 
 def prop_smdp(case, ctx):
@@ -300,9 +302,37 @@ def prop_smdp(case, ctx):
     # options may share a name (unnamed PlanToSubgoalOptions all have name None)
     opts = [make_option(dict(o, name=o["name"] if case.get("distinct_names", True) else "opt"), view,
                         name_suffix=f"#{i}" if case.get("distinct_names", True) else "") for i, o in enumerate(case["options"])]
-    smdp = SemiMarkovDecisionProcess(mdp=mdp, options=opts, n_option_simulations=case["n_sims"],
+    po = None
+    goals = [s for s in sorted(closure(spec)) if spec["absorbing"][s]]
+    if case.get("subgoal_option_named_like_action") is not None and goals:
+        from msdm.core.semimdp.option import PlanToSubgoalOption
+        from msdm.algorithms.valueiteration import ValueIteration
+        po = PlanToSubgoalOption(mdp=mdp, initial_states=[S[s] for s in sorted(closure(spec)) if not spec["absorbing"][s]],
+                                 subgoals=[S[g] for g in goals], planner=ValueIteration(max_residual=1e-8),
+                                 include_mdp_absorbing_states=True, name=A[case["subgoal_option_named_like_action"]], max_steps=500)
+    smdp = SemiMarkovDecisionProcess(mdp=mdp, options=opts + ([po] if po is not None else []), n_option_simulations=case["n_sims"],
                                      include_mdp_actions=case["include_mdp_actions"], seed=case["seed"])
     multi = False
+    if po is not None:
+        ctx.event("subgoal_option_named_like_action")
+        for s in [x for x in sorted(closure(spec)) if not spec["absorbing"][x]][:3]:
+            try:
+                nst = smdp.next_state_transit_time_dist(S[s], po)
+                sims = smdp.run_simulations(S[s], po)
+            except AlgorithmException:
+                ctx.event("option_hit_step_limit")
+                continue
+            except Exception as e:
+                ctx.viol("C15.smdp.option_raises", f"{type(e).__name__}: {e}")
+                continue
+            emp = {}
+            for sim in sims:
+                steps = list(sim.steps)
+                k = (steps[-1]["state"], len(steps) - 1)
+                emp[k] = emp.get(k, 0) + 1 / len(sims)
+            got = {k: p for k, p in nst.items() if p > 0}
+            ctx.check(set(got) == set(emp) and all(abs(got[k] - emp[k]) <= 1e-9 for k in emp), "C15.smdp.outcome_distribution_is_empirical",
+                      lambda: f"planning option named {po.name!r} at state {s}: (end state, duration) {got}, its own simulations {emp}")
     for s in sorted(closure(spec)):
         # primitive actions
         for a in view.avail[s]:
